@@ -5,9 +5,9 @@ from vcheck import write_json
 META = {
     "property_id": "C29",
     "level": "model_checking",
-    "technique": "TLA+ frame-isolation spec (Frames.tla: per-frame entry snapshot, exact restore on revert/halt, no change but warmth under STATICCALL) model-checked with TLC over all nesting shapes; projections of the real StateDB recorded by a tracer at every frame entry/exit (and every instruction inside static contexts) validated against FramesTrace.tla; TLC-enumerated nesting shapes compiled to contracts and executed",
-    "text": "Frames.tla keeps a stack of frames, each with the observable state (balances, nonces, code, self-destruct flags, storage, transient storage, log count, refund counter, warm accounts and slots over a small universe) it was entered with; a frame that reverts or halts must leave exactly that state (a started creation keeps the creator's nonce increment and the new address warm), and while a static frame is on the stack only warmth may change. TLC shows on every nesting shape that marks of failed frames, of frames below them and of static frames never survive. The driver runs wrapper contracts (CALL/STATICCALL/DELEGATECALL/CALLCODE/CREATE/CREATE2 around random callees that write, revert, fail, run out of gas) under every rule set with a tracer that projects the real StateDB; TLC validates every event as a step of the specification.",
-    "note": "Trusts TLC, the OnEnter/OnExit/OnOpcode callbacks and the projection in harness/cmd/c29 (universe: the fixed accounts plus every account that appears as caller/callee/created contract, at most 14; slots 0..3). Account existence (empty vs absent) is not part of the projection.",
+    "technique": "TLA+ frame-isolation spec (Frames.tla: per-frame entry snapshot, exact restore on revert/halt, no change but warmth under STATICCALL) model-checked with TLC over all nesting shapes; projections of the real StateDB recorded by a tracer at every frame entry/exit (and every instruction inside static contexts) validated against FramesTrace.tla",
+    "text": "Frames.tla keeps a stack of frames, each with the observable state (balances, nonces, code, self-destruct flags, storage, transient storage, log count, refund counter, warm accounts and slots over a small universe) it was entered with; a frame that reverts or halts must leave exactly that state (a started creation keeps the creator's nonce increment and the new address warm), and while a static frame is on the stack only warmth may change. TLC shows on every nesting shape that marks of failed frames, of frames below them and of static frames never survive. The driver runs random wrapper contracts (CALL/STATICCALL/DELEGATECALL/CALLCODE/CREATE/CREATE2 around random callees that write, revert, fail, run out of gas) and a directed matrix frame kind x inner effect (storage set/clear/re-create, transient storage, log, value transfer, cold accesses, creation, self-destruct, nested successful write) x inner ending (stop, revert, invalid, out of gas) x outer frame stops/reverts, under every rule set with a tracer that projects the real StateDB; TLC validates every event as a step of the specification.",
+    "note": "Trusts TLC, the OnEnter/OnExit/OnOpcode callbacks and the projection in harness/cmd/c29 (universe: the fixed accounts plus every account that appears as caller/callee/created contract, at most 14; slots 0..3). Account existence (empty vs absent) is not part of the projection. The replay leg planned in DESIGN (TLC-enumerated nesting shapes compiled to contracts) is not implemented: the binding is trace validation only.",
     "design_ref": "3.5 C29",
 }
 
@@ -28,5 +28,5 @@ def run(ctx):
                          desc="frame event rejected by FramesTrace at event %d%s%s" % (
                              consumed + 1, (" (invariant %s)" % r.violated) if r.violated else "",
                              (": broken rule " + ",".join(rules)) if rules else ""))
-    return ctx.finish(rule="MC: all nesting shapes up to MaxDepth/MaxFrames with marks, warm-ups, failures; V: seeded wrapper programs x rule sets, every frame entry/exit and every instruction in static contexts",
+    return ctx.finish(rule="MC: all nesting shapes up to MaxDepth/MaxFrames with marks, warm-ups, failures; V: seeded wrapper programs and the directed kind x effect x ending x outer matrix, x rule sets; every frame entry/exit and every instruction in static contexts",
                       assumptions=["projection over at most 14 accounts and slots 0..3", "existence of empty accounts not observed"])
